@@ -53,7 +53,7 @@ pub fn gen_len(ch: &mut Ch, max: usize) -> usize {
 /// Option sets an application may put on its replies; chosen to move the
 /// overhead across the 13 / 269 codec thresholds.
 pub fn gen_resp_opts(ch: &mut Ch) -> Vec<(u16, Vec<Vec<u8>>)> {
-    match ch.weighted(&[35, 15, 10, 10, 10, 10, 10], "ropts") {
+    match ch.weighted(&[35, 15, 10, 10, 10, 10, 10, 6], "ropts") {
         0 => vec![],
         1 => vec![(4, vec![vec![0xE7, 0x01, 0x02, 0x03]]), (12, vec![vec![42]])],
         2 => vec![(8, vec![b"loc".to_vec(), b"ation".to_vec(), b"p".to_vec()])],
@@ -63,9 +63,13 @@ pub fn gen_resp_opts(ch: &mut Ch) -> Vec<(u16, Vec<Vec<u8>>)> {
             let n = 12 + ch.below(4, "ropts.len") as usize; // 12..15 around the 13 threshold
             vec![(4, vec![vec![0xAB; 8]]), (20, vec![vec![0x61; n]])]
         }
-        _ => {
+        6 => {
             let n = 266 + ch.below(6, "ropts.len") as usize; // around the 269 threshold
             vec![(20, vec![vec![0x62; n]]), (12, vec![vec![0]])]
+        }
+        _ => {
+            let n = 100 + ch.below(101, "ropts.len") as usize; // overhead 117..224
+            vec![(20, vec![vec![0x63; n]])]
         }
     }
 }
@@ -73,19 +77,43 @@ pub fn gen_resp_opts(ch: &mut Ch) -> Vec<(u16, Vec<Vec<u8>>)> {
 /// Extra request options (elective / repeatable, semantically inert for the
 /// stub application) that vary the request overhead.
 pub fn gen_req_opts(ch: &mut Ch) -> Vec<(u16, Vec<u8>)> {
-    match ch.weighted(&[45, 12, 12, 8, 8, 8, 7], "qopts") {
+    match ch.weighted(&[40, 10, 10, 6, 6, 6, 6, 4, 4, 4, 4], "qopts") {
         0 => vec![],
         1 => vec![(3, b"host.example".to_vec())],
         2 => vec![(15, b"q=1".to_vec()), (15, b"verbose".to_vec())],
-        3 => vec![(258, vec![2])],
+        // No-Response with its natural values (bit mask of 2.xx / 4.xx / 5.xx)
+        3 => vec![(258, vec![*ch.pick(&[2u8, 0, 8, 16, 24, 26], "qopts.noresp")])],
         4 => vec![(17, vec![60]), (2049, vec![7; 3])],
         5 => {
             let n = 11 + ch.below(5, "qopts.len") as usize;
             vec![(15, vec![0x71; n])]
         }
-        _ => {
+        6 => {
             let n = 265 + ch.below(8, "qopts.len") as usize;
             vec![(15, vec![0x72; n])]
+        }
+        // a proxy request: Proxy-Uri / Proxy-Scheme next to the Uri-* options
+        7 => {
+            if ch.below(2, "qopts.proxy") == 0 {
+                vec![(35, b"coap://h/x".to_vec())]
+            } else {
+                vec![(39, b"coap".to_vec()), (3, b"h".to_vec())]
+            }
+        }
+        // Observe (register) on a block-wise GET, Size1 / Size2 hints
+        8 => vec![(6, vec![])],
+        9 => {
+            if ch.below(2, "qopts.size") == 0 {
+                vec![(60, vec![*ch.pick(&[5u8, 0, 200], "qopts.size1")])]
+            } else {
+                vec![(28, vec![])]
+            }
+        }
+        // 100-200 bytes: overheads in the range where a budget between 1153
+        // and 1280 still admits a 1024-byte block
+        _ => {
+            let n = 100 + ch.below(101, "qopts.len") as usize;
+            vec![(15, vec![0x75; n])]
         }
     }
 }
@@ -93,8 +121,10 @@ pub fn gen_req_opts(ch: &mut Ch) -> Vec<(u16, Vec<u8>)> {
 pub fn gen_resource(ch: &mut Ch, max_len: usize) -> ResSpec {
     let nv = 1 + ch.below(3, "res.nver") as usize;
     let lens = (0..nv).map(|_| gen_len(ch, max_len)).collect();
-    let up = (0..nv).map(|_| if ch.chance(1, 4, "res.upreply") { gen_len(ch, max_len.min(3000)) } else { 0 }).collect();
-    ResSpec { lens, opts: gen_resp_opts(ch), up_reply_lens: up, own_block2: None }
+    let up = (0..nv).map(|_| if ch.chance(2, 5, "res.upreply") { gen_len(ch, max_len.min(3000)) } else { 0 }).collect();
+    // now and then the application answers with an error code and a long body
+    let code = if ch.chance(1, 12, "res.errcode") { Some(*ch.pick(&[0x84u8, 0xA0, 0x80, 0x9D], "res.errcode.v")) } else { None };
+    ResSpec { lens, opts: gen_resp_opts(ch), up_reply_lens: up, own_block2: None, code }
 }
 
 /// Swarm-style network: many runs have no fault, many have only one kind.
@@ -166,7 +196,7 @@ pub fn response_overhead(token_len: usize, opts: &[(u16, Vec<Vec<u8>>)], with_bl
 
 /// Budget drawn relative to an overhead so that the interesting region is hit.
 pub fn gen_budget(ch: &mut Ch, ov: usize) -> usize {
-    match ch.weighted(&[30, 25, 20, 15, 10], "budget.mode") {
+    match ch.weighted(&[30, 25, 20, 15, 10, 5], "budget.mode") {
         0 => 1152,
         1 => ov + 28 + ch.below(121, "budget.dense") as usize,
         2 => {
@@ -176,6 +206,7 @@ pub fn gen_budget(ch: &mut Ch, ov: usize) -> usize {
             ((ov + 12 * which + (1 << k)) as i64 + d).max(0) as usize
         }
         3 => (ov + 28 + ch.below((1280usize.saturating_sub(ov + 28)) as u64 + 1, "budget.rnd") as usize).min(1280),
-        _ => ov + 28, // the edge of the stated range
+        4 => ov + 28, // the edge of the stated range
+        _ => 1153 + ch.below(128, "budget.top") as usize, // above the default, up to the stated maximum
     }
 }
